@@ -289,7 +289,10 @@ def run_halmos(root, extra=(), capture=True):
     """One in-process `halmos._main` run on the project at root.  Returns (summary, stdout text)."""
     from halmos.__main__ import _main
 
-    argv = ["--root", root, "--no-status", "--solver-threads", "1"] + list(extra)
+    # no time limit on branching queries: with the default (1 ms) an overloaded machine turns `unsat` into `unknown` at
+    # random, and the number of explored paths then depends on the load, not on the schedule of tests (false alarm of
+    # the thorough tier at load 40: 10 vs 11 paths, same verdict and models)
+    argv = ["--root", root, "--no-status", "--solver-threads", "1", "--solver-timeout-branching", "0"] + list(extra)
     buf = io.StringIO()
     if capture:
         with contextlib.redirect_stdout(buf), contextlib.redirect_stderr(buf):
